@@ -15,9 +15,30 @@ import (
 // arguments, order) with the model's (operation `lintwf`).
 
 var lwKinds = map[string]bool{"syntax-check": true, "matrix": true, "credentials": true, "job-needs": true, "env-var": true,
-	"id": true, "glob": true, "permissions": true, "if-cond": true}
+	"id": true, "glob": true, "permissions": true, "if-cond": true, "shell-name": true, "deprecated-commands": true, "events": true}
 
 var lwTemplates = map[string][]pwTemplate{
+	"shell-name": {pwCompile("shell-name", `shell name @q@ is invalid@o@. available names are @x@`)},
+	"deprecated-commands": {pwCompile("deprecated-command", `workflow command @q@ was deprecated. use @x@`)},
+	"events": {
+		pwCompile("filters-exclusive", `both @q@ and @q@ filters cannot be used for the same event @q@. note: use '!' to negate patterns`),
+		pwCompile("filter-not-available", `@q@ filter is not available for @s@ event. it is only for @x@`),
+		pwCompile("unknown-webhook", `unknown Webhook event @q@. see @x@`),
+		pwCompile("types-not-allowed", `"types" cannot be specified for @q@ Webhook event`),
+		pwCompile("invalid-activity-type", `invalid activity type @q@ for @q@ Webhook event. available types are @x@`),
+		pwCompile("workflow-run-no-workflows", `no workflow is configured for "workflow_run" event`),
+		pwCompile("workflows-not-allowed", `"workflows" cannot be configured for @q@ event. it is only for workflow_run event`),
+		pwCompile("call-default-not-number", `input of workflow_call event @q@ is typed as number but its default value @q@ cannot be parsed as a float number: @x@`),
+		pwCompile("call-default-not-bool", `input of workflow_call event @q@ is typed as boolean. its default value must be true or false but got @q@`),
+		pwCompile("call-default-and-required", `input @q@ of workflow_call event has the default value @q@, but it is also required. @x@`),
+		pwCompile("choice-without-options", `input type of @q@ is "choice" but "options" is not set`),
+		pwCompile("option-duplicated", `option @q@ is duplicated in options of @q@ input`),
+		pwCompile("default-not-in-options", `default value @q@ of @q@ input is not included in its options @x@`),
+		pwCompile("options-without-choice", `"options" can not be set to @q@ input because its input type is not "choice"`),
+		pwCompile("dispatch-default-not-number", `type of @q@ input is "number" but its default value @q@ cannot be parsed as a float number: @x@`),
+		pwCompile("dispatch-default-not-bool", `type of @q@ input is "boolean". its default value @q@ must be "true" or "false"`),
+		pwCompile("too-many-inputs", `maximum number of inputs for "workflow_dispatch" event is 10 but @s@ inputs are provided. see @x@`),
+	},
 	"id": {
 		pwCompile("id-convention", `invalid @s@ ID @q@. @x@ ID must start with a letter or _ and contain only alphanumeric characters, -, or _`),
 		pwCompile("step-id-duplicate", `step ID @q@ duplicates. previously defined at @p@. step ID must be unique within a job. note that step ID is case insensitive`),
@@ -114,6 +135,7 @@ func lwCase(src string) (line, impl string, ok bool) {
 	}
 	nums := map[string]bool{}
 	node := nodeSexp(&root, nums)
+	exNumbers(&root, nums)
 	line = "lintwf " + numsSexp(nums) + " " + node
 	errs, err := lintSrc("w.yaml", src)
 	if err != nil {
@@ -121,6 +143,9 @@ func lwCase(src string) (line, impl string, ok bool) {
 	}
 	var parts []string
 	for _, e := range errs {
+		if e.Kind == "events" && (strings.HasPrefix(e.Message, "invalid CRON format") || strings.HasPrefix(e.Message, "scheduled job runs too frequently")) {
+			continue // robfig/cron is not modelled
+		}
 		if lwKinds[e.Kind] {
 			parts = append(parts, lwCanonErr(e))
 		}
